@@ -16,6 +16,7 @@ import (
 	"strconv"
 	"sync"
 
+	"github.com/zmap/zcrypto/tls"
 	"verifharness/lib/obs"
 	"verifharness/lib/tlsh"
 )
@@ -26,6 +27,10 @@ type Case24 struct {
 	tlsh.Case
 	Two   bool `json:"two"`
 	CCert bool `json:"ccert"` // the client holds a (valid) certificate for client authentication
+	// Reconf: between the two connections the server is reconfigured to S2 (suite list, version range,
+	// curves, preference flag) while keeping its ticket keys; the client and its session cache stay.
+	Reconf bool    `json:"reconf"`
+	S2     tlsh.EP `json:"s2"`
 }
 
 // Rec is one observation record (one connection).
@@ -36,8 +41,13 @@ type Rec struct {
 	Down   int      `json:"down"`
 	Second bool     `json:"second"`
 	CCert  bool     `json:"ccert"`
+	Reconf bool     `json:"reconf"` // this (second) connection ran against the reconfigured server: S is the configuration in force, S1 the issuing one
+	S1     tlsh.EP  `json:"s1"`
 	Obs    tlsh.Obs `json:"obs"`
 }
+
+// ticket keys shared by the server configurations of a reconfiguration case
+var sharedTicketKey = [32]byte{'c', '2', '4', '-', 'r', 'e', 'c', 'o', 'n', 'f'}
 
 func runCase(cs Case24) []Rec {
 	cs.C, cs.S = cs.C.NonNil(), cs.S.NonNil()
@@ -69,9 +79,24 @@ func runCase(cs Case24) []Rec {
 	if cs.Two {
 		n = 2
 	}
+	servers := []*tls.Config{b.Server, b.Server}
+	confs := []tlsh.EP{cs.S, cs.S}
+	if cs.Two && cs.Reconf {
+		cs.S2 = cs.S2.NonNil()
+		c2 := cs.Case
+		c2.S = cs.S2
+		b2, err := tlsh.Build(c2, true)
+		if err != nil {
+			obs.Fatal("case %d (reconfigured server): %v", cs.ID, err)
+		}
+		b.Server.SetSessionTicketKeys([][32]byte{sharedTicketKey})
+		b2.Server.SetSessionTicketKeys([][32]byte{sharedTicketKey})
+		servers[1], confs[1] = b2.Server, cs.S2
+	}
 	for k := 0; k < n; k++ {
-		r := tlsh.Run(b.Client, b.Server, tlsh.RunOpt{Filter: filter})
-		out = append(out, Rec{ID: cs.ID, C: cs.C, S: cs.S, Down: cs.Down, Second: k == 1, CCert: cs.CCert, Obs: tlsh.Observe(r)})
+		r := tlsh.Run(b.Client, servers[k], tlsh.RunOpt{Filter: filter})
+		out = append(out, Rec{ID: cs.ID, C: cs.C, S: confs[k], Down: cs.Down, Second: k == 1, CCert: cs.CCert,
+			Reconf: k == 1 && cs.Reconf, S1: cs.S, Obs: tlsh.Observe(r)})
 	}
 	return out
 }
@@ -86,9 +111,20 @@ func randomCase(r *rand.Rand, id int) Case24 {
 		cs.S.Auth = r.Intn(5)
 	}
 	cs.CCert = r.Intn(2) == 0
+	cs.S2 = cs.S
+	if cs.Two && r.Intn(3) == 0 {
+		cs.Reconf = true
+		cs.S2 = tlsh.RandomEP(r, true)
+		cs.S2.Key, cs.S2.Auth = cs.S.Key, cs.S.Auth
+		if r.Intn(2) == 0 { // only the suite list changes
+			l := cs.S2.Suites
+			cs.S2 = cs.S
+			cs.S2.Suites = l
+		}
+	}
 	if r.Intn(6) == 0 {
 		cs.Down = 10 + r.Intn(3)
-		cs.Two = false
+		cs.Two, cs.Reconf, cs.S2 = false, false, cs.S
 	}
 	return cs
 }
